@@ -11,28 +11,38 @@ import tbf
 import stages
 from tbf import walk, kids, strip, AnalysisBroken
 
-SKIP_CALLS = {"assert", "reserve", "size", "begin", "end", "cbegin", "cend"}
+SKIP_CALLS = {"assert", "reserve", "size", "empty", "back", "front", "begin", "end", "cbegin", "cend"}
 
 
-def atoms(facts, fn, only=None, canon=None):
+def one_sided_helpers(facts, fa, fb):
+    """single-return helpers that exist in one sibling's class only: an extraction on that side, to be inlined before comparing"""
+    out = {}
+    ca, cb = fa.get("cls"), fb.get("cls")
+    if not ca or not cb or ca == cb:
+        return out
+    na = {m["name"] for m in facts.methods_of(ca)}
+    nb = {m["name"] for m in facts.methods_of(cb)}
+    for cls, names in ((ca, na - nb), (cb, nb - na)):
+        for m in facts.methods_of(cls):
+            if m["name"] in names and tbf.body(m) is not None and not m.get("inst"):
+                st = [x for x in kids(tbf.body(m)) if x.get("k") not in ("NullStmt",)]
+                if len(st) == 1 and st[0].get("k") == "ReturnStmt" and kids(st[0]):
+                    out[m["name"]] = m
+    return out
+
+
+def atoms(facts, fn, only=None, canon=None, inline=None):
     fm = stages.FnModel(facts, fn)
-    # stable numbering of re-assigned locals
+    if inline:
+        fm.inline_helpers = dict(inline)
+    # locals are numbered by first appearance in the atom sequence (not by declaration order: a hoisted temporary or a moved
+    # declaration must not shift the numbers of the locals that follow)
     order = {}
-    for x in walk(fm.body):
-        if x.get("k") == "VarDecl" and x["did"] in fm.assigned and x["name"] not in order:
-            order[x["name"]] = "v%d" % (len(order) + 1)
-    for p in fn.get("params", []):
-        if p["did"] in fm.assigned and p["name"] not in order:
-            order[p["name"]] = "v%d" % (len(order) + 1)
-
     locs = {}
-    for x in walk(fm.body):
-        if x.get("k") == "VarDecl" and x["name"] not in locs and x["did"] not in fm.assigned:
-            locs[x["name"]] = "u%d" % (len(locs) + 1)
 
     def c(s):
-        s = re.sub(r"mutable:(\w+)", lambda m: "mutable:" + order.get(m.group(1), m.group(1)), s)
-        s = re.sub(r"local:(\w+)", lambda m: "local:" + locs.get(m.group(1), m.group(1)), s)
+        s = re.sub(r"mutable:(\w+)", lambda m: "mutable:" + order.setdefault(m.group(1), "v%d" % (len(order) + 1)), s)
+        s = re.sub(r"local:(\w+)", lambda m: "local:" + locs.setdefault(m.group(1), "u%d" % (len(locs) + 1)), s)
         if canon:
             for a, b in canon:
                 s = s.replace(a, b)
@@ -49,37 +59,77 @@ def atoms(facts, fn, only=None, canon=None):
                 return
         out.setdefault("%s %s" % (kind, text), node)
 
+    # local lambdas that are called directly (`const auto f = [..](a, b){...}; f(x, y);`) are expanded at each call site
+    local_lams = {}
     for x in walk(fm.body):
+        if x.get("k") == "VarDecl" and kids(x) and strip(kids(x)[0]).get("k") == "LambdaExpr":
+            local_lams[x["did"]] = strip(kids(x)[0])
+    called = {}
+    for x in walk(fm.body):
+        if x.get("k") in ("CallExpr", "CXXOperatorCallExpr"):
+            c0 = [strip(c) for c in kids(x)]
+            cal = c0[0] if x.get("k") == "CallExpr" else (c0[1] if len(c0) > 1 and x.get("op") == "()" else None)
+            if cal is not None and cal.get("k") == "DeclRefExpr" and cal.get("did") in local_lams:
+                args = kids(x)[1:] if x.get("k") == "CallExpr" else kids(x)[2:]
+                called.setdefault(cal["did"], []).append((x, args))
+    skip = set()
+    for did in called:
+        for y in walk(local_lams[did]):
+            skip.add(id(y))
+
+    def visit(x):
         k = x.get("k")
-        try:
-            if k in ("IfStmt", "WhileStmt"):
-                add("cond", c(fm.origin(x["c"][0])), x)
-            elif k == "DoStmt":
-                add("cond", c(fm.origin(x["c"][1])), x)
-            elif k == "ForStmt":
-                init = x["c"][0]
-                v = [d for d in kids(init) if d.get("k") == "VarDecl"] if init else []
-                if v and kids(v[0]):
-                    try:
-                        lo, hi, d = fm.loop_interval(x)
-                        add("loop", c("[%s,%s] %s" % (lo, hi, d)), x)
-                    except AnalysisBroken:
-                        add("loop", c("? " + fm.origin(x["c"][1]) if x["c"][1] else "?"), x)
-                elif x["c"][1] is not None:
-                    add("loop", c("? " + fm.origin(x["c"][1])), x)
-            elif k in ("BinaryOperator", "CompoundAssignOperator") and x.get("op", "").endswith("=") and x.get("op") not in ("==", "!=", "<=", ">="):
-                l, r = kids(x)
-                add("assign", c("%s %s %s" % (lhs_text(fm, l), x["op"], fm.origin(r))), x)
-            elif k in ("CallExpr", "CXXMemberCallExpr"):
-                nm = tbf.callee_name(x)
-                if nm in SKIP_CALLS or nm is None:
-                    continue
-                base = tbf.call_base(x)
-                add("call", c("%s.%s(%s)" % (fm.origin(base) if base is not None else "", nm, ",".join(fm.origin(a) for a in tbf.call_args(x)))), x)
-            elif k == "ReturnStmt" and kids(x):
-                add("ret", c(fm.origin(kids(x)[0])), x)
-        except AnalysisBroken:
-            raise
+        if k in ("IfStmt", "WhileStmt"):
+            add("cond", c(fm.cond_origin(x["c"][-3] if (k == "IfStmt" and len(x["c"]) >= 3) else x["c"][0] if k == "IfStmt" else x["c"][-2])), x)
+        elif k == "DoStmt":
+            add("cond", c(fm.cond_origin(x["c"][1])), x)
+        elif k == "ForStmt":
+            init = x["c"][0]
+            v = [d for d in kids(init) if d.get("k") == "VarDecl"] if init else []
+            if v and kids(v[0]):
+                try:
+                    lo, hi, d = fm.loop_interval(x)
+                    add("loop", c("[%s,%s] %s" % (lo, hi, d)), x)
+                except AnalysisBroken:
+                    add("cond", c(fm.cond_origin(x["c"][1]) if x["c"][1] else "?"), x)
+            elif x["c"][1] is not None:
+                add("cond", c(fm.cond_origin(x["c"][1])), x)       # for( ; c ; step): a while loop
+        elif k in ("BinaryOperator", "CompoundAssignOperator") and x.get("op", "").endswith("=") and x.get("op") not in ("==", "!=", "<=", ">="):
+            l, r = kids(x)
+            if any(x is d for d in fm.elem_defs.values()):
+                return     # the definition of a hoisted per-element value: its uses carry the expression
+            add("assign", c("%s %s %s" % (lhs_text(fm, l), x["op"], fm.origin(r))), x)
+        elif k == "UnaryOperator" and x.get("op") in ("++", "--"):
+            t = strip(kids(x)[0])
+            if not (t.get("k") == "DeclRefExpr" and t.get("did") in fm.loop_vars):
+                add("assign", c("%s %s 1" % (lhs_text(fm, t), "+=" if x["op"] == "++" else "-=")), x)
+        elif k in ("CallExpr", "CXXMemberCallExpr"):
+            nm = tbf.callee_name(x)
+            if nm in SKIP_CALLS or nm is None or nm in fm.inline_helpers:
+                return
+            cal = strip(kids(x)[0])
+            if cal.get("k") == "DeclRefExpr" and cal.get("did") in called:
+                return
+            base = tbf.call_base(x)
+            add("call", c("%s.%s(%s)" % (fm.origin(base) if base is not None else "", nm, ",".join(fm.origin(a) for a in tbf.call_args(x)))), x)
+        elif k == "ReturnStmt" and kids(x):
+            add("ret", c(fm.origin(kids(x)[0])), x)
+
+    for x in walk(fm.body):
+        if id(x) in skip:
+            continue
+        visit(x)
+    for did, sites in called.items():
+        lam = local_lams[did]
+        params = lam.get("params", [])
+        lbody = [y for y in lam.get("c", []) if y is not None and y.get("k") == "CompoundStmt"]
+        for site, args in sites:
+            if len(args) != len(params) or not lbody:
+                raise AnalysisBroken("%s: call of the local lambda at line %d not understood" % (fn["qname"], site["l"][1]))
+            fm.lambda_bind = {p["did"]: fm.origin(a) for p, a in zip(params, args)}
+            for y in walk(lbody[0]):
+                visit(y)
+            fm.lambda_bind = {}
     return out
 
 
@@ -126,9 +176,10 @@ def compare(facts, res, rule, fa, fb, only=None, canon_a=None, canon_b=None, wha
     (a step present in one sibling only) or when a differing pair is a near match (changed constant / operator /
     bound); two siblings that differ on both sides without any near match have been restructured, which this rule
     cannot judge: analysis broken (exit 2), never a verdict."""
-    A = atoms(facts, fa, only, canon_a)
-    B = atoms(facts, fb, only, canon_b)
-    res.instance(rule, "%s vs %s" % (fa["qname"], fb["qname"]), facts.loc(fb), "%d / %d atoms%s" % (len(A), len(B), (" restricted to " + ",".join(only)) if only else ""))
+    inl = one_sided_helpers(facts, fa, fb)
+    A = atoms(facts, fa, only, canon_a, inl)
+    B = atoms(facts, fb, only, canon_b, inl)
+    res.instance(rule, "%s vs %s" % (fa["qname"], fb["qname"]), facts.loc(fb), "%d / %d atoms%s%s" % (len(A), len(B), (" restricted to " + ",".join(only)) if only else "", (" ; inlined one-sided helpers " + ",".join(sorted(inl))) if inl else ""))
     onlyA, onlyB = sorted(set(A) - set(B)), sorted(set(B) - set(A))
     if onlyA and onlyB:
         pairs = [(a, b) for a in onlyA for b in onlyB if _near(a, b)]
